@@ -161,6 +161,7 @@ def build_attrs(td, wrong):
             obls.append(Obl(f"{a}-reaches-the-text-element", PASS if t.get(on_text) == want else FAIL, ground=True, note=f"{t.get(on_text)!r} expected {v!r}"))
             if sh is not None:
                 obls.append(Obl(f"{a}-leaves-the-shape", PASS if sh.get(a) is None else FAIL, ground=True, note=str(sh.get(a))))
+        obls.append(svgdx_text_attrs_consumed(o))
         if vert and not any(a == "writing-mode" for a, _ in pas):
             obls.append(Obl("vertical-default-writing-mode", PASS if t.get("writing-mode") == "tb" else FAIL, ground=True, note=str(t.get("writing-mode"))))
         if sh is not None:
@@ -238,6 +239,16 @@ def build_textcontent_coords(td, wrong):
             return [Obl("transform-ok", FAIL, ground=True, note=r.docs[0]["msg"][:200])]
         return compare_outputs(Out(r.docs[0]["output"]), Out(r.docs[1]["output"]))
     return Template(f"textcontent-coords/{form}/{loc}", [d0, d1], vars_, check, family="textcontent-coords", role="C19/textcontent", cap=4)
+
+
+SVG_TEXT_ATTRS = {"text-anchor", "text-decoration", "text-rendering"}
+
+
+def svgdx_text_attrs_consumed(o):
+    """the text-* attributes that are svgdx's own (text, text-loc, text-offset, text-dx / dy / dxy, text-lsp, text-style) are
+    instructions to svgdx: whatever element carried them (a <text> element included), none of them is in the output"""
+    left = sorted({f"{o.tag(e)}@{a}" for e in o.all for a in e.attrib if (a == "text" or a.startswith("text-")) and a not in SVG_TEXT_ATTRS})
+    return Obl("svgdx-text-attributes-consumed", FAIL if left else PASS, ground=True, note=",".join(left))
 
 
 def build_text_own_transform(td, wrong):
@@ -410,6 +421,7 @@ def build(td, wrong=False):
             ex = plus(ex, o_eff) if outside else minus(ex, o_eff)
         ex, ey = plus(ex, dx), plus(ey, dy)
         obls += [Obl("text.x", ne(o.num(t, "x", None), ex)), Obl("text.y", ne(o.num(t, "y", None), ey))]
+        obls.append(svgdx_text_attrs_consumed(o))
         # classes
         want = {"d-text", "d-red"}
         suffix = "-vertical" if vert else ""
